@@ -703,7 +703,7 @@ def gen_system(rng, profile):
                 starts.append(s)
         starts.sort()
         if rng.random() < 0.15 and unit != "eternity":
-            e = [rng.choice([2018, 2019, 2020]), rng.choice([6, 12]), rng.choice([30, 15])]
+            e = [rng.choice([2018, 2019, 2020])] + rng.choice([[6, 30], [12, 15], [1, 1], [6, 1], [12, 31], [2, 28]])
             if all(s <= e for s in starts):
                 v["end"] = e
         for s in starts:
@@ -750,6 +750,19 @@ def gen_requests(rng, sys, pop, profile):
                 if v["unit"] == "month" and rng.random() < 0.5:
                     p = ["month", [year, rng.randint(1, 12), 1], 1]
                 reqs.append(["set", i, p, input_values(rng, v, count_for(pop, v))])
+    # boundary: inputs and requests for the period starting exactly on a variable's end date, and the next one
+    for i, v in enumerate(vs):
+        if v.get("end") and v["unit"] in ("day", "month", "year") and rng.random() < 0.7:
+            ey, em, ed = v["end"]
+            aligned = (v["unit"] == "day") or (v["unit"] == "month" and ed == 1) or (v["unit"] == "year" and (em, ed) == (1, 1))
+            at_end = [v["unit"], [ey, em, ed] if aligned else [ey, em if v["unit"] == "month" else 1, 1], 1]
+            after = [v["unit"], [ey + 1, em if v["unit"] != "year" else 1, 1 if v["unit"] != "day" else ed], 1]
+            if rng.random() < 0.7:
+                reqs.append(["set", i, at_end, input_values(rng, v, count_for(pop, v))])
+            if rng.random() < 0.4:
+                reqs.append(["set", i, after, input_values(rng, v, count_for(pop, v))])
+            reqs.append(["calc", i, at_end])
+            reqs.append(["calc", i, after])
     nreq = rng.randint(*profile.get("nreq", (3, 8)))
     for _ in range(nreq):
         i = rng.randrange(len(vs))
